@@ -48,6 +48,11 @@ type Obl struct {
 
 type Ctx struct {
 	eng      *Engine
+	// replay bookkeeping (function under verification, its entry state and parameter values)
+	fn       *ssa.Function
+	contract *Contract
+	entry    State
+	fnParams []Val
 	decls    []string
 	declSet  map[string]string
 	defs     map[string]string // bound constant -> defining term
